@@ -248,3 +248,16 @@ func Minimise(prop Property, p *Plan, first *Result, maxRuns int) (*Plan, *Resul
 	}
 	return best, bestRes, runs
 }
+
+// Guard runs f and reports a panic instead of propagating it; blown tells
+// whether the simulated step budget ran out (a run that does not return).
+func Guard(f func()) (panicked interface{}, blown bool) {
+	defer func() {
+		if r := recover(); r != nil {
+			panicked = r
+			blown = simrt.Blown()
+		}
+	}()
+	f()
+	return nil, simrt.Blown()
+}
